@@ -57,3 +57,15 @@ Check (C17.C17_stats_per_base : forall len s e vals, wf_vals len vals -> s <= e 
 Check (C17.C17_values_rows_in_order : forall q withnames bed rows,
   values_over_bed q withnames bed = Ok rows <->
   Forall2 (fun l r => vob_line q withnames (unique_names withnames bed) l = Ok r) (file_lines bed) rows).
+
+(* ---- IEEE = exact on a checkable domain (appended; the grid definitions are pinned in C06Pins.v) ---- *)
+From BT Require Proofs.FloatExact Proofs.FloatExactStats Proofs.C06FileFloat.
+Check (C17.C17_sum_ieee_on_grid : forall E G cl, FloatExact.grid_ok_sum E G -> Forall (FloatExact.vgrid E G) cl ->
+  (FloatExact.gabs E G cl < FloatExact.P53)%Z ->
+  is_fin (sum_of ieee cl) = true /\ (fl_Q (sum_of ieee cl) == sumQ cl)%Q /\
+  C06FileFloat.same_num (sum_of ieee cl) (sum_of exact cl) /\
+  FloatExact.gval E G (sum_of ieee cl) (FloatExact.gsum E G cl)).
+Check (C17.C17_sum_ieee_in_domain : forall s e vals, FloatExact.in_exact_domain vals = true ->
+  let cl := clip_filter s e vals in
+  is_fin (sum_of ieee cl) = true /\ (fl_Q (sum_of ieee cl) == sumQ cl)%Q /\
+  C06FileFloat.same_num (sum_of ieee cl) (sum_of exact cl)).
